@@ -219,6 +219,9 @@ def check_levelize(chk, P):
         # a gate without fan-in (an undriven gate: expressible, though lint reports it by default) is a source like any other
         "undriven-gate-as-a-source": {"a": ("input", []), "fl": ("and", []), "g": ("or", ["a", "fl"]), "h": ("not", ["g"])},
         "only-undriven-gates": {"p": ("xor", []), "q": ("buf", ["p"])},
+        # gates all of whose operands are constants (a constant is a source: the gate is one step away from it), then more logic
+        "gates-over-constants-only": {"z": ("0", []), "o": ("1", []), "k": ("nand", ["z", "o"]), "m": ("not", ["o"]), "a": ("input", []), "g": ("xor", ["k", "m"]), "h": ("and", ["g", "a"])},
+        "a-chain-behind-one-constant": {"o": ("1", []), "n1": ("buf", ["o"]), "n2": ("not", ["n1"]), "n3": ("buf", ["n2"])},
     }
     for name, spec in specs.items():
         c = build(spec, outputs=[list(spec)[-1]])
